@@ -23,7 +23,10 @@ RULE = ('random functional expression trees (depth 0..3 quick, 0..4 thorough) ov
         'divisions (tolerance 1e-9 relative). A case is non-trivial when the tree has at least one derived node '
         'or a non-constant leaf; distinct by (space kind, tree structure with parameters, x, d). Two further case sets: '
         'SeparableSum of two random trees on two different spaces, and MoreauEnvelope(L2NormSquared | L1Norm, sigma) '
-        'gradients on every space kind.')
+        'gradients on every space kind. Further families: chains of nested scalings, compositions with nonlinear operators, '
+        'user-defined leaves/operators that return their argument object (under every rule, argument must stay bitwise '
+        'unchanged), conjugates (simple_functional with all 8 keywords, L2NormSquared, QuadraticForm and the conjugate '
+        'rules) with trees on top; every operator object is evaluated at several points in sequence.')
 ASSUMPTIONS = [
     'exact arithmetic: the theorems are about real numbers; rounding, overflow, NaN payloads are out of scope',
     'complex spaces are not modelled (real spaces only)',
@@ -202,7 +205,7 @@ class OpNode(object):
 def gen_op(rng, S, depth=1):
     """Random operator with domain S (range may be another space)."""
     import odl
-    kinds = ['scal', 'mult', 'id', 'square', 'shift', 'usquare']
+    kinds = ['scal', 'mult', 'id', 'square', 'shift', 'usquare', 'aliasid']
     if not _FLOATS[0]:
         kinds += ['recip']     # 1/x only in the exact correspondence (non-finite results are skipped there);
         #                        the finite-difference oracles of the probes stay away from its poles
@@ -224,6 +227,18 @@ def gen_op(rng, S, depth=1):
         return OpNode(odl.IdentityOperator(S.sp), '(Oid %s)' % w, ['Identity'], S, S, True)
     if k == 'square':
         return OpNode(odl.PowerOperator(S.sp, 2), '(Osquare %s)' % w, ['Power2'], S, S, False)
+    if k == 'aliasid':      # a user operator whose _call returns its argument object itself
+        class AliasIdentity(odl.Operator):
+            def __init__(self, space):
+                super(AliasIdentity, self).__init__(space, space, linear=True)
+
+            def _call(self, x):
+                return x
+
+            @property
+            def adjoint(self):
+                return self
+        return OpNode(AliasIdentity(S.sp), '(Oid %s)' % w, ['AliasIdentity'], S, S, True)
     if k == 'usquare':
         return OpNode(odl.ufunc_ops.square(S.sp), '(Osquare %s)' % w, ['ufunc-square'], S, S, False)
     if k == 'recip':
@@ -273,10 +288,42 @@ def gen_leaf(rng, S, positive=False):
     return node
 
 
+_ALIAS_ONLY = [False]   # directed family: every leaf is a user-defined functional whose gradient aliases
+
+
+def simple_sq(S, a, alias=False):
+    """simple_functional with ALL EIGHT keywords given and pairwise distinct: f = (a/2)|x|^2, f* = |y|^2/(2a)"""
+    from odl.solvers.functional.functional import simple_functional
+    inv = 1.0 / a
+    grad = (lambda x: x) if (alias and a == 1.0) else (lambda x: a * x)
+    cgrad = (lambda y: y) if (alias and a == 1.0) else (lambda y: inv * y)
+    return simple_functional(S.sp,
+                             fcall=lambda x: (a / 2) * x.inner(x), grad=grad,
+                             prox=lambda sigma: None, grad_lip=a,
+                             convex_conj_fcall=lambda y: (inv / 2) * y.inner(y), convex_conj_grad=cgrad,
+                             convex_conj_prox=lambda sigma: 0, convex_conj_grad_lip=inv)
+
+
+def simple_lin(S, b_el):
+    """user functional <x, b> whose gradient callable returns the STORED vector b itself"""
+    from odl.solvers.functional.functional import simple_functional
+    return simple_functional(S.sp, fcall=lambda x: x.inner(b_el), grad=lambda x: b_el, linear=True)
+
+
 def _gen_leaf(rng, S, positive=False):
     import odl
     F = odl.solvers
     w = S.wq
+    if not positive and (_ALIAS_ONLY[0] or rng.random() < 0.12):
+        k = rng.choice(['alias_half', 'alias_half', 'alias_lin', 'simple_sq'])
+        if k == 'alias_half':      # gradient operator returns its ARGUMENT object
+            return Node(simple_sq(S, 1.0, alias=True), '(Xleaf %s (Lscaledsq %s 1))' % (w, w), ['simple-alias-half-sq'], S, False)
+        if k == 'alias_lin':       # gradient operator returns a STORED vector object
+            b = vec(rng, S)
+            return Node(simple_lin(S, S.elem(b)), '(Xleaf %s (Lsimple_lin %s %s))' % (w, w, C.qs(b)),
+                        ['simple-alias-lin', b], S, False)
+        a = rng.choice([4.0, 0.25, 2.0, 0.5])
+        return Node(simple_sq(S, a), '(Xleaf %s (Lscaledsq %s %s))' % (w, w, C.q(a)), ['simple-sq', a], S, False)
     kinds = ['l2sq', 'l2sq', 'l2', 'l1', 'const', 'zero', 'lin', 'quad_scal', 'quad_mult']
     if not S.is_pspace:       # Huber on tensor spaces incl. array weighting (repaired in /repo bec7266)
         kinds += ['huber', 'huber']
@@ -419,6 +466,64 @@ KIND = {'FunctionalLeftScalarMult': 'KLeftScal', 'FunctionalRightScalarMult': 'K
         'FunctionalRightVectorMult': 'KRightVec', 'FunctionalSum': 'KSum', 'FunctionalScalarSum': 'KSum',
         'FunctionalTranslation': 'KTrans', 'FunctionalComp': 'KComp', 'FunctionalQuadraticPerturb': 'KQuadPert',
         'FunctionalProduct': 'KProd', 'FunctionalQuotient': 'KQuot', 'BregmanDistance': 'KBregman'}
+
+
+def gen_conjugable(rng, S, depth):
+    """A functional with a modelled convex_conj: returns (node, conj_node) where conj_node.py = node.py.convex_conj and
+    conj_node.coq is the model of the object the code builds for it (rules of functional.py / default_functionals.py)."""
+    import odl
+    F = odl.solvers
+    w = S.wq
+    if depth <= 0:
+        k = rng.choice(['l2sq', 'simple', 'simple', 'qf'])
+        if k == 'l2sq':
+            f = F.L2NormSquared(S.sp)
+            return (Node(f, '(Xleaf %s (Ll2sq %s))' % (w, w), ['L2NormSquared'], S, False),
+                    Node(f.convex_conj, '(Xlscal %s (1 # 4) (Xleaf %s (Ll2sq %s)))' % (w, w, w), ['conj', ['L2NormSquared']], S))
+        if k == 'simple':
+            a = rng.choice([4.0, 0.25, 2.0, 0.5, 8.0, 0.125])
+            f = simple_sq(S, a)
+            return (Node(f, '(Xleaf %s (Lscaledsq %s %s))' % (w, w, C.q(a)), ['simple-sq', a], S, False),
+                    Node(f.convex_conj, '(Xleaf %s (Lscaledsq %s %s))' % (w, w, C.q(1.0 / a)), ['conj', ['simple-sq', a]], S, False))
+        sc = rng.choice([2.0, 4.0, 0.5, -2.0, 0.25])
+        b = rng.choice([None, vec(rng, S)])
+        c = rng.choice([0.0, dy(rng)])
+        f = F.QuadraticForm(operator=odl.ScalingOperator(S.sp, sc), vector=None if b is None else S.elem(b), constant=c)
+        return (Node(f, '(Xleaf %s (Lquad_scal %s %s %s %s))' % (w, w, C.q(sc), oqs(b), C.q(c)), ['QuadraticForm-scaling', sc, b, c], S, False),
+                Node(f.convex_conj, '(Xleaf %s (Lquadconj_scal %s %s %s %s))' % (w, w, C.q(sc), oqs(b), C.q(c)),
+                     ['conj', ['QuadraticForm-scaling', sc, b, c]], S, False))
+    f, fc = gen_conjugable(rng, S, depth - 1)
+    k = rng.choice(['LeftScal', 'RightScal', 'ScalarSum', 'Trans', 'QuadPert0'])
+    if k == 'Trans' and f.desc[0] == 'Trans':
+        k = 'ScalarSum'        # nested translations are merged by __init__ (their conjugate has ONE linear term)
+    if k == 'LeftScal':        # s * f.convex_conj * (1/s)
+        sc = rng.choice([2.0, 4.0, 0.5, 0.25])
+        g = sc * f.py
+        return (Node(g, '(Xrmul %s %s %s)' % (w, C.q(sc), f.coq), [k, sc, f.desc], S),
+                Node(g.convex_conj, '(Xmul %s (Xrmul %s %s %s) %s)' % (w, w, C.q(sc), fc.coq, C.q(1.0 / sc)), ['conj', [k, sc, f.desc]], S))
+    if k == 'RightScal':       # f.convex_conj * (1/s)
+        sc = rng.choice([2.0, 4.0, 0.5, -2.0, -0.25])
+        g = F.FunctionalRightScalarMult(f.py, sc)
+        return (Node(g, '(Xrscal %s %s %s)' % (w, f.coq, C.q(sc)), [k, f.desc, sc], S),
+                Node(g.convex_conj, '(Xmul %s %s %s)' % (w, fc.coq, C.q(1.0 / sc)), ['conj', [k, f.desc, sc]], S))
+    if k == 'ScalarSum':       # f.convex_conj - c
+        c = dy(rng)
+        g = f.py + c
+        return (Node(g, '(Xadds %s %s %s)' % (w, f.coq, C.q(c)), [k, f.desc, c], S),
+                Node(g.convex_conj, '(Xadds %s %s %s)' % (w, fc.coq, C.q(-c)), ['conj', [k, f.desc, c]], S))
+    if k == 'Trans':           # FunctionalQuadraticPerturb(f.convex_conj, linear_term=t)
+        t = vec(rng, S)
+        g = F.FunctionalTranslation(f.py, S.elem(t))
+        return (Node(g, '(Xtranslated %s %s %s)' % (w, f.coq, C.qs(t)), [k, f.desc, t], S),
+                Node(g.convex_conj, '(Xqp %s %s 0 %s 0)' % (w, fc.coq, oqs(t)), ['conj', [k, f.desc, t]], S))
+    # QuadraticPerturb with a = 0:  f.convex_conj.translated(u) [- c]
+    u, c = vec(rng, S), rng.choice([0.0, dy(rng, nz=True)])
+    g = F.FunctionalQuadraticPerturb(f.py, linear_term=S.elem(u), constant=c)
+    coq = '(Xtranslated %s %s %s)' % (w, fc.coq, C.qs(u))
+    if c != 0:
+        coq = '(Xadds %s %s %s)' % (w, coq, C.q(-c))
+    return (Node(g, '(Xqp %s %s 0 %s %s)' % (w, f.coq, oqs(u), C.q(c)), ['QuadPert0', f.desc, u, c], S),
+            Node(g.convex_conj, coq, ['conj', ['QuadPert0', f.desc, u, c]], S))
 
 
 def gen_finite_leaf(rng, S):
@@ -595,6 +700,47 @@ def correspondence(rng, tier):
     for i in range(40 if quick else 300):
         S = make_space(rng, rng.choice(SPACE_KINDS))
         _add(cs, rng, S, gen_nonlinear_comp(rng, S, vs), vs)
+    # (a4) user-defined leaves whose gradient ALIASES its argument (or a stored vector), at every position of every
+    #      rule; values/gradients vs the model at x, x2, x again, and x bitwise unchanged
+    _ALIAS_ONLY[0] = True
+    try:
+        for kind in (SPACE_KINDS if not quick else SPACE_KINDS[::2]):
+            S = make_space(rng, kind)
+            for k in DERIVED:
+                _add(cs, rng, S, gen_tree(rng, S, 1, vs, force=k), vs)
+        for i in range(40 if quick else 300):
+            S = make_space(rng, rng.choice(SPACE_KINDS))
+            _add(cs, rng, S, gen_tree(rng, S, rng.choice([2, 3]), vs), vs)
+    finally:
+        _ALIAS_ONLY[0] = False
+    # (a5) conjugates: f, f.convex_conj, f.convex_conj.convex_conj where the code has a closed rule, and trees on top
+    for i in range(60 if quick else 400):
+        S = make_space(rng, rng.choice(SPACE_KINDS))
+        f, fc = gen_conjugable(rng, S, rng.choice([0, 0, 1, 2]))
+        _add(cs, rng, S, f, vs)
+        _add(cs, rng, S, fc, vs)
+        if f.desc[0] in ('simple-sq', 'L2NormSquared') or f.desc[0] == 'QuadraticForm-scaling':
+            try:
+                fcc = Node(fc.py.convex_conj, None, ['conj', fc.desc], S)
+            except Exception:
+                fcc = None
+            if fcc is not None and f.desc[0] == 'simple-sq':
+                fcc.coq = f.coq                      # the biconjugate of simple_functional is the original object again
+                _add(cs, rng, S, fcc, vs)
+        # a derived functional built on the conjugate
+        s2 = rng.choice([2.0, -0.5, 3.0, 0.25])
+        top = rng.choice(['rmul', 'mul', 'trans', 'sum'])
+        w = S.wq
+        if top == 'rmul':
+            nd = Node(s2 * fc.py, '(Xrmul %s %s %s)' % (w, C.q(s2), fc.coq), ['ov_rmul', s2, fc.desc], S)
+        elif top == 'mul':
+            nd = Node(fc.py * s2, '(Xmul %s %s %s)' % (w, fc.coq, C.q(s2)), ['ov_mul', fc.desc, s2], S)
+        elif top == 'trans':
+            t = vec(rng, S)
+            nd = Node(fc.py.translated(S.elem(t)), '(Xtranslated %s %s %s)' % (w, fc.coq, C.qs(t)), ['ov_translated', fc.desc, t], S)
+        else:
+            nd = Node(fc.py + f.py, '(Xsum %s %s %s)' % (w, fc.coq, f.coq), ['ov_add', fc.desc, f.desc], S)
+        _add(cs, rng, S, nd, vs)
     # (b) random deeper trees
     ntree = 250 if quick else 2500
     for i in range(ntree):
@@ -996,6 +1142,65 @@ def _run_probe(name, rng, odl, F):
         return (not bad), 'nary-lipschitz-%s' % ctor, \
             '%s of %d functionals under all %d argument orders (nan/finite/inf constants in every position): a finite ' \
             'grad_lipschitz must bound |grad f(x)-grad f(y)|/|x-y|' % (ctor, n, len(perms)), {'bad': bad[:3]}
+    if kind == 'alias':
+        # user-defined leaves whose gradient returns its argument / a stored vector, under every rule
+        sk, _, rule = arg.partition('/')
+        S = make_space(rng, sk)
+        _ALIAS_ONLY[0] = True
+        try:
+            node = gen_tree(rng, S, 1, None, force=rule) if rule else gen_tree(rng, S, 2, None)
+        finally:
+            _ALIAS_ONLY[0] = False
+        f = node.py
+        xs = [vec(rng, S) for _ in range(2)]
+        d = vec(rng, S)
+        bad = []
+        try:
+            G = f.gradient
+            for xv in xs + [xs[0]]:
+                xe, de = S.elem(xv), S.elem(d)
+                with np.errstate(all='ignore'):
+                    gi = float(G(xe).inner(de))
+                    v = float(f(xe))
+                if S.flat(xe) != xv:
+                    bad.append({'x': xv, 'x_after': S.flat(xe), 'what': 'argument modified'})
+                    continue
+                if not (math.isfinite(gi) and math.isfinite(v)):
+                    continue
+                ok_fd, err = _fd_ok(f, S.elem(xv), de, gi, tol=2e-5)
+                if not ok_fd:
+                    bad.append({'x': xv, 'inner(grad,d)': gi, 'fd_rel_err': err})
+        except Exception as e:
+            bad.append({'raised': '%s: %s' % (type(e).__name__, str(e)[:200])})
+        return (not bad), 'aliasing-leaf-%s' % node.desc[0], \
+            'tree over user-defined leaves whose gradient aliases its argument: gradient vs finite differences at ' \
+            'several points on one gradient object, argument bitwise unchanged', {'bad': bad[:3], 'tree': node.desc}
+    if kind == 'conj':
+        # f.convex_conj and f.convex_conj.convex_conj: gradient vs directional derivative, advertised constant vs ratios
+        S = make_space(rng, arg)
+        f, fc = gen_conjugable(rng, S, rng.choice([0, 0, 1, 2]))
+        objs = [('conj', fc.py)]
+        try:
+            objs.append(('biconj', fc.py.convex_conj))
+        except Exception:
+            pass
+        objs.append(('scaled-conj', rng.choice([2.0, 0.5]) * fc.py * rng.choice([3.0, 0.25])))
+        bad = []
+        for label, g in objs:
+            try:
+                ok, det = _grad_check(g, S, vec(rng, S), vec(rng, S))
+                if ok:
+                    ok, det = _lip_check(g, S, rng)
+            except NotImplementedError:
+                continue
+            except Exception as e:
+                ok, det = False, {'raised': '%s: %s' % (type(e).__name__, str(e)[:200])}
+            if not ok:
+                det['object'] = label
+                bad.append(det)
+        return (not bad), 'conjugate-%s' % f.desc[0], \
+            'convex_conj / biconjugate / scaled conjugate of %s: gradient vs directional derivative and finite ' \
+            'grad_lipschitz vs observed ratios' % f.desc[0], {'bad': bad[:3], 'functional': f.desc}
     if kind == 'chain':
         # nested argument scalings / left scalings / translations over a leaf with a finite constant
         S = make_space(rng, arg)
@@ -1201,6 +1406,13 @@ def _probe_names(rng, tier):
         for n in ns:
             for _ in range(1 if quick else 4):
                 names.append('nary:%s/%d' % (ctor, n))
+    for sk in SPACE_KINDS:
+        for _ in range(2 if quick else 8):
+            names.append('alias:%s' % sk)
+            names.append('conj:%s' % sk)
+    for rule in ALIAS_RULES:
+        for _ in range(1 if quick else 4):
+            names.append('alias:%s/%s' % (rng.choice(SPACE_KINDS), rule))
     names += ['qp-linear-flag'] * 2
     for sk in ('rn', 'rn1', 'rn_cw', 'rn_aw', 'discr', 'discr_big', 'discr2d'):
         for m in ('forward', 'central', 'backward'):
@@ -1216,6 +1428,10 @@ def _probe_names(rng, tier):
     return names
 
 
+ALIAS_RULES = ['Prod', 'Quot', 'Sum', 'Comp', 'LeftScal', 'RightScal', 'RightVec', 'QuadPert', 'Bregman', 'Trans',
+               'ov_sub', 'ov_mul', 'ov_comp']
+
+
 def search(rng, broken):
     """Called by the driver when a proof/correspondence is broken and no probe failed: look for a failing input
     of the property itself with the Lipschitz oracle on n-ary constructors (all argument orders), chains and trees."""
@@ -1225,6 +1441,7 @@ def search(rng, broken):
             names += ['nary:%s/%d' % (ctor, n)] * 4
     for sk in SPACE_KINDS:
         names += ['chain:%s' % sk] * 4 + ['tree:%s/3' % sk] * 3 + ['reuse:%s' % sk] * 2 + ['doc:%s' % sk]
+        names += ['alias:%s' % sk] * 2 + ['conj:%s' % sk] * 4 + ['alias:%s/%s' % (sk, r) for r in ALIAS_RULES]
     for name in names:
         seed = rng.getrandbits(40)
         try:
